@@ -160,11 +160,20 @@ def rule_c(ctx):
     rid = "C10.c"
     ctx.rule(rid, "faithful record: the dispatcher hands every action its own `info` argument; the action forwards it to store; the raw exfiltrator "
                   "sends a by-value copy of it; WithOrigin delegates store/load/init to the raw exfiltrator on the same slot", floor=6)
-    h = handler(F)
-    for bb, t in action_calls(F, h):
-        d = deps(h, flow(h).term_arg(bb, 1))
-        params = {x for x in d if x[0] == "param"}
-        ctx.check(params == {("param", 2)}, rid, "dispatcher:info-argument", "the record passed to actions derives from the handler's own `info` pointer only", t["sp"], sorted(map(str, params)))
+    from ..anchors import action_site
+    h, found = action_site(F)
+    if not found:
+        raise AnchorLost("action call site of the dispatcher")
+    for (A, bb, t, chain) in found:
+        d = deps(A, flow(A).term_arg(bb, 1))
+        cur = {x[1] for x in d if x[0] == "param"}
+        for (fm, cb) in reversed(chain):
+            nxt = set()
+            for pn in cur:
+                if pn - 1 < len(fm.term(cb)["args"]):
+                    nxt |= {x[1] for x in deps(fm, flow(fm).term_arg(cb, pn - 1)) if x[0] == "param"}
+            cur = nxt
+        ctx.check(cur == {2}, rid, "dispatcher:info-argument", "the record passed to actions derives from the handler's own `info` pointer only", t["sp"], sorted(cur))
     for cl in action_closures(F):
         for sb, st in store_calls(F, cl):
             a = [deep_strip(e) for e in flow(cl).term_arg(sb, 3)]
